@@ -1,9 +1,10 @@
 """C16 — a command means the same via every entry path: parser siblings, helper siblings, Lua translator vs RESP grammar."""
 import json
 import re
+from .facts import callee
 from . import ast as A
 from . import facts
-from .lib import is_callee, switch_info
+from .lib import is_callee, switch_info, src_of_operand, TRANSPARENT
 
 FILES = ("src/redis/parser.rs", "src/redis/commands.rs", "src/redis/executor/script_ops.rs")
 RENAME = {
@@ -27,6 +28,9 @@ def run(ck, ctx):
                      "constructs the same Command variant(s), applies the same case normalisation to the same argument positions and "
                      "recognises option keywords the RESP parser knows")
     ck.rule("R16.4", "RESP<->Lua conversion tables are total: resp_to_lua_value / lua_to_resp have an arm for every RespValue variant")
+    ck.rule("R16.5", "byte transparency of value operands: the redis.call translator builds every SDS operand from the raw argument bytes "
+                     "(SDS::new(bytes)), as the RESP parsers do; an SDS built through a UTF-8 (lossy) string alters binary values on the "
+                     "script path only")
     ck.nd("effect equality of script vs direct invocation over all keyspace states")
     ck.assume("a behaviour-preserving rewrite of ONE parser copy in a style outside the normalisation is reported as drift (the repo documents "
               "the two functions as copies to keep in sync by hand)")
@@ -39,6 +43,7 @@ def run(ck, ctx):
     for cfg in ctx.configs:
         prog = ctx.prog(cfg)
         _r164(ck, prog, cfg)
+        _r165(ck, prog, cfg)
 
 
 # ------------------------------------------------------------------------------------------------
@@ -321,3 +326,29 @@ def _r164(ck, prog, cfg):
         ck.ok("R16.4", "lua-not-compiled" + _tag(cfg), "the `lua` feature is off in this configuration: no conversion tables exist")
         return
     ck.floor("R16.4" + _tag(cfg), n, 1)
+
+
+def _r165(ck, prog, cfg):
+    fs = [f for f in prog.lib_fns() if f.file == "src/redis/executor/script_ops.rs" and "parse_lua_command_bytes" in f.id]
+    if not fs:
+        if cfg == "nodefault":
+            ck.ok("R16.5", "lua-not-compiled" + _tag(cfg), "the `lua` feature is off in this configuration")
+            return
+        ck.anchor_lost("R16.5", "parse_lua_command_bytes not found")
+        return
+    n = 0
+    for f in fs:
+        for b, t in f.calls():
+            if is_callee(t, r"redis::data::sds::SDS::(new|from_str|from_string|from_bytes)$", r"SDS as std::convert::From<.*>>::from$"):
+                n += 1
+                ctor = callee(t).rsplit("::", 1)[-1]
+                raw = is_callee(t, r"SDS::new$", r"SDS::from_bytes$")
+                a = src_of_operand(f, t["args"][0], through_calls=TRANSPARENT + (r"Deref>::deref$",)) if t["args"] else None
+                lossy = a is not None and a.kind == "call" and (is_callee(a.term, r"from_utf8_lossy", r"ToString>::to_string$", r"String::from_utf8") or
+                                                                "closure" in callee(a.term) and "to_string" in (a.path() or ""))
+                fid = re.sub(r"\{closure#\d+\}", "{closure}", f.id).rsplit("::", 2)[-2:]
+                ck.check(raw and not lossy, "R16.5", "lua:%s:SDS::%s#%d%s" % ("::".join(fid), ctor, n, _tag(cfg)),
+                         "the redis.call translator builds a value operand with SDS::%s from a string view of the argument: bytes that are not "
+                         "valid UTF-8 are replaced on the script path, so the same command stores different bytes than when a client sends it"
+                         % ctor, f.where(t["ln"]), detail="SDS::new(raw bytes)")
+    ck.floor("R16.5" + _tag(cfg), n, 1)
